@@ -26,7 +26,7 @@ RULE = ('seeded analytic truth motions (|lat|<=85 both hemispheres, speed <=300 
 ASSUMPTIONS = ['accelerometer floor 100 eps R / h^2: the readings come from a spline second derivative of a 6.4e6 m vector (measured at rest: '
                '~20 eps R / h^2)', 'samples within 12 knots of either end carry spline end-condition error (decays ~0.27 per knot) and are '
                'checked with the shrink test only', 'for increment type the duplicated first sample is not compared']
-REQUIRED_OBS = ['accel_increment_order_checked', 'increment_order_checked', 'reading_ladders', 'trajectory_ladders', 'inversion_ladders', 'at_rest_checked', 'sine_motion_checked', 'forms_compared',
+REQUIRED_OBS = ['closed_latitude_paths', 'accel_increment_order_checked', 'increment_order_checked', 'reading_ladders', 'trajectory_ladders', 'inversion_ladders', 'at_rest_checked', 'sine_motion_checked', 'forms_compared',
                 'readings_above_floor']
 REQUIRED_CLASSES = {'all': ['motion', 'rest', 'sine']}
 EPS = np.finfo(float).eps
@@ -93,7 +93,9 @@ def run_motion(case, out, obs):
     rng = np.random.Generator(np.random.PCG64(case['seed']))
     h = case['h']
     T = max(8.0, 120 * h)
-    m, ex = TM.random_motion(rng, T, aggressive=0.7)
+    closed = bool(case['seed'] % 4 == 3)           # a quarter of the motions return to their starting latitude at the last sample
+    m, ex = TM.random_motion(rng, T, aggressive=0.7, closed=closed)
+    obs['closed_latitude_paths'] = int(closed)
     runs = {}
     for k, hh in enumerate((h, h / 2)):
         n = int(round(T / hh))
